@@ -196,7 +196,8 @@ def run_case(seed, tier, rec, st):
                     routes.append(("func", lambda: F["fe"](v, ttl), lambda doc: F["fd"](doc, ttl)))
                 for rname, ef, df in routes:
                     facts = {"format": fname, "route": rname, "type_kinds": sorted({n[0] for n in common.deep_nodes(fam, tt)}),
-                             "union_copy_shortcut": common.union_copy_fact(fam, tt)}
+                             "union_copy_shortcut": common.union_copy_fact(fam, tt),
+                             "field_engine_over_format_native": common.engine_over_native(fam, tt, F["natives"])}
                     det = lambda **kw: dict({"format": fname, "route": rname, "target": tname, "type": tast.render(tt),
                                              "value": common.short(v, 400), "family": fam.to_json()}, **kw)
                     try:
